@@ -31,6 +31,8 @@ pub struct EnumDef {
 pub struct Defs {
     pub structs: Vec<StructDef>,
     pub enums: Vec<EnumDef>,
+    /// top-level constants `const NAME: ty = literal;` (bool / integer types), visible in every function
+    pub consts: Vec<(String, Ty, Val)>,
 }
 
 impl StructDef {
